@@ -698,11 +698,18 @@ pub fn run(ctx: &Ctx) {
                 let (vi, tid, preserve) = string_slots[pick(string_slots.len())];
                 let mut sv = g.gen_string(preserve, None);
                 // white space at the ends of a value set through the API must survive serialize + load as well
-                let k = tape.first().copied().unwrap_or(0) % 12;
-                if k < 3 {
-                    sv.insert(0, [' ', '\t', '\n'][k as usize]);
-                } else if k < 6 {
-                    sv.push([' ', '\t', '\n'][k as usize - 3]);
+                // (leading, trailing, or both with runs of different lengths)
+                let k = tape.first().copied().unwrap_or(0) % 16;
+                let ws = [' ', '\t', '\n'];
+                if k < 3 || (6..12).contains(&k) {
+                    for _ in 0..(1 + k % 2) {
+                        sv.insert(0, ws[k as usize % 3]);
+                    }
+                }
+                if (3..12).contains(&k) {
+                    for _ in 0..(1 + (k / 2) % 2) {
+                        sv.push(ws[(k as usize + 1) % 3]);
+                    }
                 }
                 (vi, tid, AVal::Str(sv))
             }
